@@ -57,7 +57,7 @@ def harvest(name, seed):
         out = os.path.join(VERIF, "corpus", pid)
         os.makedirs(out, exist_ok=True)
         with open(os.path.join(out, name + ".json"), "w") as fh:
-            json.dump(obj, fh, indent=1, sort_keys=True, default=str)
+            json.dump(obj, fh, indent=1, default=str)
             fh.write("\n")
         return f"stored ({good[0][0]} bytes)"
     finally:
